@@ -365,7 +365,7 @@ def long_families(variant):
     }
     viols = []
     n = 0
-    marks = {1, 2, 3, 4, 5, 10, 100, 500, 600, 1000, 1500, 2000}
+    marks = set(range(1, 71)) | {100, 128, 129, 500, 600, 1000, 1500, 2000}
     for name, data in fams.items():
         t, sub = make(variant)
         if sub is not None:
